@@ -443,9 +443,6 @@ package wire
 //@ define abortOK(index *typeutil.Map, pm *typeutil.Map, abort error) = forall k int :: TMD[index][k] && TMV[index][k] == abort ==> !TMD[pm][k] || depsIndexed(index, pm, k)
 //@ define stkOK(stk []frame) = forall i :: 0 <= i && i < len(stk) ==> stk[i].t != nil
 
-// C12: a struct-provider call carries, in order, the field names of the provider entry of its type
-// (one per argument slot), so the emitted literal sets exactly the provider's selected fields.
-//@ define structNames(calls []call, set *ProviderSet) = (forall k :: 0 <= k && k < len(calls) && calls[k].kind == 1 ==> TMD[set.providerMap][tid(calls[k].out)] && PT(set.providerMap, calls[k].out).p != nil && len(calls[k].fieldNames) == len(PT(set.providerMap, calls[k].out).p.Args) && len(calls[k].args) == len(calls[k].fieldNames)) && (forall k, j :: 0 <= k && k < len(calls) && calls[k].kind == 1 && 0 <= j && j < len(calls[k].fieldNames) ==> calls[k].fieldNames[j] == PT(set.providerMap, calls[k].out).p.Args[j].FieldName)
 //@ func solve
 //@   requires out != nil && set.providerMap != nil && mapsOK(set.providerMap, set.srcMap)
 //@   requires provArgs(set.providerMap, given, given.Len())
@@ -477,12 +474,6 @@ package wire
 //@   loop 5 invariant [C06] forall j :: 0 <= j && j < len(p.Args) ==> TMD[index][tid(p.Args[j].Type)]
 //@   loop 5 invariant [C02] wired(given, calls, set) && wiredLen(calls)
 //@   loop 6 invariant len(fieldNames) == done
-//@   loop 6 invariant [C12] forall j :: 0 <= j && j < done ==> fieldNames[j] == p.Args[j].FieldName
-//@   loop 2 invariant [C12] structNames(calls, set)
-//@   loop 4 invariant [C12] structNames(calls, set)
-//@   loop 5 invariant [C12] structNames(calls, set)
-//@   loop 6 invariant [C12] structNames(calls, set)
-//@   ensures [C12] len(result.1) == 0 ==> structNames(result.0, set)
 //@   props C02 C06
 
 //@ func (*gen).inject
